@@ -110,7 +110,13 @@ func (td *UnionTypeDef) Deserialize(dr *codec.DecodingReader) (View, error) {
 	}
 	option := td.Options[selector]
 	if option == nil {
+		if scope != 1 {
+			return nil, fmt.Errorf("None union value must not be followed by data, got %d trailing bytes", scope-1)
+		}
 		return td.FromView(selector, nil)
+	}
+	if option.IsFixedByteLength() && option.TypeByteLength() != scope-1 {
+		return nil, fmt.Errorf("fixed-size union value of %d bytes does not match remaining scope %d", option.TypeByteLength(), scope-1)
 	}
 	subView, err := option.Deserialize(dr)
 	if err != nil {
